@@ -58,6 +58,15 @@ def runDispatch : Store → List (List Period × Vec) → Store
   | s, [] => s
   | s, (subs, a) :: r => runDispatch (dispatchOn s subs a) r
 
+/-- helpers for the concrete examples: did it succeed, and with which store -/
+def isOk {α : Type} (r : Except String α) : Bool := match r with | .ok _ => true | .error _ => false
+def okStore (r : Except String Store) : Store := match r with | .ok t => t | .error _ => []
+
+theorem ok_of_isOk {r : Except String Store} (h : isOk r = true) : r = .ok (okStore r) := by
+  cases r with
+  | ok t => rfl
+  | error e => cases h
+
 /-! ## 2. stores and vectors -/
 
 theorem sget_sput (s : Store) (p q : Period) (v : Vec) :
@@ -133,5 +142,1184 @@ theorem all_zero_iff (v : Vec) : v.all (fun x => x == 0) = true ↔ ∀ i, i < v
     have := h i hi
     rw [ent_lt hi] at this
     simpa using this
+
+/-! ## 3. the two loops -/
+
+theorem sget_dispatchOn (s : Store) (subs : List Period) (a : Vec) (q : Period) :
+    sget (dispatchOn s subs a) q =
+      match sget s q with
+      | some v => some v
+      | none => if q ∈ subs then some a else none := by
+  induction subs generalizing s with
+  | nil => simp only [dispatchOn, List.foldl_nil]; cases sget s q <;> simp
+  | cons x xs ih =>
+    have ih' := ih (fillStep a s x)
+    simp only [dispatchOn, List.foldl_cons] at ih' ⊢
+    rw [ih']
+    unfold fillStep
+    cases hx : sget s x with
+    | none =>
+      simp only [sget_sput]
+      by_cases hxq : x = q
+      · subst hxq; simp [hx]
+      · have : ¬ q = x := fun e => hxq e.symm
+        simp only [if_neg hxq, List.mem_cons, this, false_or]
+    | some w =>
+      simp only
+      by_cases hxq : x = q
+      · subst hxq; simp [hx]
+      · have : ¬ q = x := fun e => hxq e.symm
+        simp only [List.mem_cons, this, false_or]
+
+theorem dispatchOn_filled (s : Store) (subs : List Period) (a : Vec) : Filled s subs a (dispatchOn s subs a) :=
+  fun q => sget_dispatchOn s subs a q
+
+theorem knownSum_nil (s : Store) (i : Nat) : knownSum s [] i = 0 := by simp [knownSum]
+
+theorem knownSum_cons (s : Store) (x : Period) (xs : List Period) (i : Nat) :
+    knownSum s (x :: xs) i = entAt s x i + knownSum s xs i := by simp [knownSum]
+
+theorem unknownCount_nil (s : Store) : unknownCount s [] = 0 := by simp [unknownCount]
+
+theorem unknownCount_cons_none (s : Store) (x : Period) (xs : List Period) (h : sget s x = none) :
+    unknownCount s (x :: xs) = unknownCount s xs + 1 := by simp [unknownCount, h]
+
+theorem unknownCount_cons_some (s : Store) (x : Period) (xs : List Period) (v : Vec) (h : sget s x = some v) :
+    unknownCount s (x :: xs) = unknownCount s xs := by simp [unknownCount, h]
+
+theorem entAt_none {s : Store} {q : Period} (h : sget s q = none) (i : Nat) : entAt s q i = 0 := by
+  simp [entAt, h]
+
+theorem entAt_some {s : Store} {q : Period} {v : Vec} (h : sget s q = some v) (i : Nat) : entAt s q i = ent v i := by
+  simp [entAt, h]
+
+theorem unknownCount_pos_iff (s : Store) (subs : List Period) :
+    0 < unknownCount s subs ↔ ∃ q, q ∈ subs ∧ sget s q = none := by
+  induction subs with
+  | nil => simp [unknownCount]
+  | cons x xs ih =>
+    cases hx : sget s x with
+    | none => rw [unknownCount_cons_none s x xs hx]; constructor
+              · intro _; exact ⟨x, List.mem_cons_self, hx⟩
+              · intro _; omega
+    | some v =>
+      rw [unknownCount_cons_some s x xs v hx, ih]
+      constructor
+      · rintro ⟨q, hq, h⟩; exact ⟨q, List.mem_cons_of_mem _ hq, h⟩
+      · rintro ⟨q, hq, h⟩
+        rcases List.mem_cons.mp hq with rfl | hq
+        · rw [hx] at h; cases h
+        · exact ⟨q, hq, h⟩
+
+theorem unknownCount_zero_iff (s : Store) (subs : List Period) :
+    unknownCount s subs = 0 ↔ ∀ q, q ∈ subs → sget s q ≠ none := by
+  have := unknownCount_pos_iff s subs
+  constructor
+  · intro h q hq hn
+    have : 0 < unknownCount s subs := this.mpr ⟨q, hq, hn⟩
+    omega
+  · intro h
+    by_contra hne
+    obtain ⟨q, hq, hn⟩ := this.mp (Nat.pos_of_ne_zero hne)
+    exact h q hq hn
+
+/-- the counting loop, from any accumulator -/
+theorem tally_fold (n : Nat) (s : Store) (hwf : WF n s) (subs : List Period) (r : Vec) (c : Nat)
+    (hr : r.length = n) :
+    (subs.foldl (tallyStep s) (r, c)).1.length = n ∧
+    (∀ i, ent (subs.foldl (tallyStep s) (r, c)).1 i = ent r i - knownSum s subs i) ∧
+    (subs.foldl (tallyStep s) (r, c)).2 = c + unknownCount s subs := by
+  induction subs generalizing r c with
+  | nil => simp [knownSum_nil, unknownCount_nil, hr]
+  | cons x xs ih =>
+    simp only [List.foldl_cons]
+    cases hx : sget s x with
+    | none =>
+      have e : tallyStep s (r, c) x = (r, c + 1) := by simp [tallyStep, hx]
+      rw [e]
+      obtain ⟨h1, h2, h3⟩ := ih r (c + 1) hr
+      refine ⟨h1, ?_, ?_⟩
+      · intro i; rw [h2 i, knownSum_cons, entAt_none hx]; ring
+      · rw [h3, unknownCount_cons_none s x xs hx]; omega
+    | some e' =>
+      have e : tallyStep s (r, c) x = (vsub r e', c) := by simp [tallyStep, hx]
+      rw [e]
+      have hl : r.length = e'.length := by rw [hr, hwf x e' hx]
+      obtain ⟨h1, h2, h3⟩ := ih (vsub r e') c (by rw [vsub_length hl, hr])
+      refine ⟨h1, ?_, ?_⟩
+      · intro i; rw [h2 i, knownSum_cons, entAt_some hx, ent_vsub hl]; ring
+      · rw [h3, unknownCount_cons_some s x xs e' hx]
+
+theorem tally_spec (s : Store) (subs : List Period) (a : Vec) (hwf : WF a.length s) :
+    (tally s subs a).1.length = a.length ∧
+    (∀ i, ent (tally s subs a).1 i = ent a i - knownSum s subs i) ∧
+    (tally s subs a).2 = unknownCount s subs := by
+  have := tally_fold a.length s hwf subs a 0 rfl
+  simpa [tally] using this
+
+/-- Σ over the pieces of "the known value, else `c`" -/
+theorem sum_known_or (s : Store) (subs : List Period) (c : Rat) (i : Nat) :
+    (subs.map (fun q => match sget s q with | some v => ent v i | none => c)).sum =
+      knownSum s subs i + (unknownCount s subs : Rat) * c := by
+  induction subs with
+  | nil => simp [knownSum_nil, unknownCount_nil]
+  | cons x xs ih =>
+    simp only [List.map_cons, List.sum_cons, ih, knownSum_cons]
+    cases hx : sget s x with
+    | none => rw [unknownCount_cons_none s x xs hx, entAt_none hx]; push_cast; ring
+    | some v => rw [unknownCount_cons_some s x xs v hx, entAt_some hx]; ring
+
+/-- reading of a filled store, entity by entity -/
+theorem entAt_filled {s t : Store} {subs : List Period} {c : Vec} (hf : Filled s subs c t) (q : Period)
+    (hq : q ∈ subs) (i : Nat) :
+    entAt t q i = match sget s q with | some v => ent v i | none => ent c i := by
+  have := hf q
+  cases hs : sget s q with
+  | none => rw [hs] at this; simp only [hq, if_true] at this; simp [entAt, this]
+  | some v => rw [hs] at this; simp [entAt, this]
+
+theorem knownSum_filled {s t : Store} {subs : List Period} {c : Vec} (hf : Filled s subs c t) (i : Nat) :
+    knownSum t subs i = knownSum s subs i + (unknownCount s subs : Rat) * ent c i := by
+  rw [← sum_known_or]
+  unfold knownSum
+  congr 1
+  apply List.map_congr_left
+  intro q hq
+  exact entAt_filled hf q hq i
+
+theorem filled_known {s t : Store} {subs : List Period} {c : Vec} (hf : Filled s subs c t) (q : Period)
+    (hq : q ∈ subs) : sget t q ≠ none := by
+  have := hf q
+  cases hs : sget s q <;> rw [hs] at this <;> simp [hq] at this <;> simp [this]
+
+theorem filled_wf {n : Nat} {s t : Store} {subs : List Period} {c : Vec} (hf : Filled s subs c t)
+    (hwf : WF n s) (hc : c.length = n) : WF n t := by
+  intro q v hv
+  have := hf q
+  rw [hv] at this
+  cases hs : sget s q with
+  | none =>
+    rw [hs] at this
+    by_cases hq : q ∈ subs
+    · simp [hq] at this; rw [this]; exact hc
+    · simp [hq] at this
+  | some w => rw [hs] at this; simp at this; rw [this]; exact hwf q w hs
+
+/-- **specification of `divide`** (exact values): it succeeds exactly when some vector `c` satisfies
+`amount = Σ known + #unknown · c` entity by entity, and then every unknown piece holds `c` -/
+theorem divideOn_ok_spec {s t : Store} {subs : List Period} {a : Vec} (hwf : WF a.length s)
+    (h : divideOn .num s subs a = .ok t) :
+    ∃ c : Vec, c.length = a.length ∧ Filled s subs c t ∧
+      (∀ i, ent a i = knownSum s subs i + (unknownCount s subs : Rat) * ent c i) ∧
+      (0 < unknownCount s subs → ∀ i, ent c i = (ent a i - knownSum s subs i) / (unknownCount s subs : Rat)) := by
+  obtain ⟨hl, he, hc⟩ := tally_spec s subs a hwf
+  unfold divideOn at h
+  simp only [hc] at h
+  by_cases hu : unknownCount s subs > 0
+  · rw [if_pos hu] at h
+    injection h with h
+    subst h
+    have hne : (unknownCount s subs : Rat) ≠ 0 := by exact_mod_cast Nat.pos_iff_ne_zero.mp hu
+    refine ⟨vdivn (tally s subs a).1 (unknownCount s subs), by rw [vdivn_length, hl], ?_, ?_, ?_⟩
+    · exact dispatchOn_filled _ _ _
+    · intro i; rw [ent_vdivn, he i]; field_simp; ring
+    · intro _ i; rw [ent_vdivn, he i]
+  · rw [if_neg hu] at h
+    have hu0 : unknownCount s subs = 0 := by omega
+    by_cases hz : (tally s subs a).1.all (fun x => x == 0) = true
+    · rw [if_pos hz] at h
+      injection h with h
+      subst h
+      refine ⟨a, rfl, ?_, ?_, fun h => absurd h hu⟩
+      · intro q
+        cases hs : sget s q with
+        | some v => rfl
+        | none =>
+          by_cases hq : q ∈ subs
+          · exact absurd hs ((unknownCount_zero_iff s subs).mp hu0 q hq)
+          · simp [hq]
+      · intro i
+        rw [hu0]
+        by_cases hi : i < a.length
+        · have := (all_zero_iff _).mp hz i (by rw [hl]; exact hi)
+          rw [he i] at this
+          push_cast; linarith
+        · have h0 := he i
+          rw [ent_ge (v := (tally s subs a).1) (by rw [hl]; omega), ent_ge (v := a) (by omega)] at h0
+          rw [ent_ge (v := a) (by omega)]
+          push_cast; linarith
+    · rw [if_neg hz] at h; cases h
+
+theorem divideOn_of_spec {s : Store} {subs : List Period} {a c : Vec} (hwf : WF a.length s)
+    (hcl : c.length = a.length)
+    (hc : ∀ i, i < a.length → ent a i = knownSum s subs i + (unknownCount s subs : Rat) * ent c i) :
+    ∃ t, divideOn .num s subs a = .ok t ∧ Filled s subs c t := by
+  obtain ⟨hl, he, hcnt⟩ := tally_spec s subs a hwf
+  unfold divideOn
+  simp only [hcnt]
+  by_cases hu : unknownCount s subs > 0
+  · rw [if_pos hu]
+    have hne : (unknownCount s subs : Rat) ≠ 0 := by exact_mod_cast Nat.pos_iff_ne_zero.mp hu
+    have hsh : castVec .num (vdivn (tally s subs a).1 (unknownCount s subs)) = c := by
+      apply vec_ext
+      · simp [castVec, vdivn_length, hl, hcl]
+      · intro i hi
+        simp only [castVec, vdivn_length, hl] at hi ⊢
+        rw [ent_vdivn, he i, hc i hi]; field_simp; ring
+    rw [hsh]
+    exact ⟨_, rfl, dispatchOn_filled _ _ _⟩
+  · rw [if_neg hu]
+    have hu0 : unknownCount s subs = 0 := by omega
+    have hz : (tally s subs a).1.all (fun x => x == 0) = true := by
+      apply (all_zero_iff _).mpr
+      intro i hi
+      rw [hl] at hi
+      rw [he i, hc i hi, hu0]; push_cast; ring
+    rw [if_pos hz]
+    refine ⟨s, rfl, ?_⟩
+    intro q
+    cases hs : sget s q with
+    | some v => rfl
+    | none =>
+      by_cases hq : q ∈ subs
+      · exact absurd hs ((unknownCount_zero_iff s subs).mp hu0 q hq)
+      · simp [hq]
+
+/-- refusal: everything known and some entity's amount differs from the total -/
+theorem divideOn_error_iff {s : Store} {subs : List Period} {a : Vec} (k : VKind) (hwf : WF a.length s) :
+    (∃ e, divideOn k s subs a = .error e) ↔
+      unknownCount s subs = 0 ∧ ∃ i, i < a.length ∧ ent a i ≠ knownSum s subs i := by
+  obtain ⟨hl, he, hcnt⟩ := tally_spec s subs a hwf
+  unfold divideOn
+  simp only [hcnt]
+  by_cases hu : unknownCount s subs > 0
+  · rw [if_pos hu]
+    constructor
+    · rintro ⟨e, h⟩; cases h
+    · rintro ⟨h0, _⟩; omega
+  · rw [if_neg hu]
+    have hu0 : unknownCount s subs = 0 := by omega
+    by_cases hz : (tally s subs a).1.all (fun x => x == 0) = true
+    · rw [if_pos hz]
+      constructor
+      · rintro ⟨e, h⟩; cases h
+      · rintro ⟨_, i, hi, hne⟩
+        have := (all_zero_iff _).mp hz i (by rw [hl]; exact hi)
+        rw [he i] at this
+        exact absurd (by linarith) hne
+    · rw [if_neg hz]
+      constructor
+      · intro _
+        refine ⟨hu0, ?_⟩
+        by_contra hcon
+        apply hz
+        apply (all_zero_iff _).mpr
+        intro i hi
+        rw [hl] at hi
+        rw [he i]
+        by_contra hne
+        exact hcon ⟨i, hi, fun h => hne (by linarith)⟩
+      · intro _; exact ⟨_, rfl⟩
+
+/-! ### the sum over the pieces (`calculate_add`) -/
+
+theorem sget_fillStep (a : Vec) (s : Store) (x q : Period) :
+    sget (fillStep a s x) q = match sget s q with
+      | some v => some v
+      | none => if q = x then some a else none := by
+  have := sget_dispatchOn s [x] a q
+  simpa [dispatchOn] using this
+
+theorem fillStep_wf {n : Nat} {s : Store} (hwf : WF n s) (a : Vec) (ha : a.length = n) (x : Period) :
+    WF n (fillStep a s x) := by
+  intro q v hv
+  rw [sget_fillStep] at hv
+  cases hs : sget s q with
+  | some w => rw [hs] at hv; simp at hv; rw [← hv]; exact hwf q w hs
+  | none =>
+    rw [hs] at hv
+    by_cases hq : q = x
+    · simp [hq] at hv; rw [← hv]; exact ha
+    · simp [hq] at hv
+
+theorem entAt_fillStep_zero (n : Nat) (s : Store) (x q : Period) (i : Nat) :
+    entAt (fillStep (vzero n) s x) q i = entAt s q i := by
+  unfold entAt
+  rw [sget_fillStep]
+  cases hs : sget s q with
+  | some w => rfl
+  | none => by_cases hq : q = x <;> simp [hq, ent_vzero]
+
+theorem knownSum_fillStep_zero (n : Nat) (s : Store) (x : Period) (subs : List Period) (i : Nat) :
+    knownSum (fillStep (vzero n) s x) subs i = knownSum s subs i := by
+  unfold knownSum
+  congr 1
+  apply List.map_congr_left
+  intro q _
+  exact entAt_fillStep_zero n s x q i
+
+theorem sumStep_eq (n : Nat) (r : Vec) (s : Store) (x : Period) :
+    sumStep n (r, s) x = (vadd r ((sget s x).getD (vzero n)), fillStep (vzero n) s x) := by
+  unfold sumStep fillStep
+  cases sget s x <;> simp
+
+theorem sumOver_fold (n : Nat) (subs : List Period) (s : Store) (hwf : WF n s) (r : Vec) (hr : r.length = n) :
+    (subs.foldl (sumStep n) (r, s)).2 = dispatchOn s subs (vzero n) ∧
+    (subs.foldl (sumStep n) (r, s)).1.length = n ∧
+    ∀ i, ent (subs.foldl (sumStep n) (r, s)).1 i = ent r i + knownSum s subs i := by
+  induction subs generalizing s r with
+  | nil => simp [dispatchOn, knownSum_nil, hr]
+  | cons x xs ih =>
+    simp only [List.foldl_cons, sumStep_eq, dispatchOn]
+    have hv : ((sget s x).getD (vzero n)).length = n := by
+      cases hs : sget s x with
+      | none => simp [vzero_length]
+      | some w => simpa using hwf x w hs
+    have hl : r.length = ((sget s x).getD (vzero n)).length := by rw [hr, hv]
+    obtain ⟨h1, h2, h3⟩ := ih (fillStep (vzero n) s x) (fillStep_wf hwf _ (vzero_length n) x)
+      (vadd r ((sget s x).getD (vzero n))) (by rw [vadd_length hl, hr])
+    refine ⟨by simpa [dispatchOn] using h1, h2, ?_⟩
+    intro i
+    rw [h3 i, ent_vadd hl, knownSum_fillStep_zero, knownSum_cons]
+    have : ent ((sget s x).getD (vzero n)) i = entAt s x i := by
+      unfold entAt
+      cases hs : sget s x <;> simp [ent_vzero]
+    rw [this]; ring
+
+/-- `calculate_add` over `subs`: entity by entity the sum of the stored values (default 0), and
+the store in which the unknown pieces now hold the default -/
+theorem sumOver_spec (n : Nat) (s : Store) (hwf : WF n s) (subs : List Period) :
+    (sumOver n s subs).2 = dispatchOn s subs (vzero n) ∧ (sumOver n s subs).1.length = n ∧
+    ∀ i, ent (sumOver n s subs).1 i = knownSum s subs i := by
+  obtain ⟨h1, h2, h3⟩ := sumOver_fold n subs s hwf (vzero n) (vzero_length n)
+  refine ⟨h1, h2, ?_⟩
+  intro i
+  have := h3 i
+  rw [ent_vzero] at this
+  simpa [sumOver] using this
+
+theorem dispatchOn_all_known (s : Store) (subs : List Period) (a : Vec)
+    (hk : ∀ q, q ∈ subs → sget s q ≠ none) : dispatchOn s subs a = s := by
+  induction subs with
+  | nil => rfl
+  | cons x xs ih =>
+    have hx : fillStep a s x = s := by
+      unfold fillStep
+      cases hs : sget s x with
+      | none => exact absurd hs (hk x List.mem_cons_self)
+      | some w => rfl
+    simp only [dispatchOn, List.foldl_cons, hx]
+    exact ih (fun q hq => hk q (List.mem_cons_of_mem _ hq))
+
+/-! ## 4. several inputs: order -/
+
+/-- `t` lies between `s` and the filling of `s` with `c` on `subs` -/
+def Mid (s : Store) (subs : List Period) (c : Vec) (t : Store) : Prop :=
+  ∀ q, sget t q = sget s q ∨ (sget s q = none ∧ q ∈ subs ∧ sget t q = some c)
+
+theorem mid_refl (s : Store) (subs : List Period) (c : Vec) : Mid s subs c s := fun _ => Or.inl rfl
+
+theorem mid_sum {s t : Store} {subs : List Period} {c : Vec} (hm : Mid s subs c t) (l : List Period) (i : Nat) :
+    knownSum t l i + (unknownCount t l : Rat) * ent c i =
+      knownSum s l i + (unknownCount s l : Rat) * ent c i := by
+  induction l with
+  | nil => simp [knownSum_nil, unknownCount_nil]
+  | cons x xs ih =>
+    rw [knownSum_cons, knownSum_cons]
+    rcases hm x with h | ⟨hs, _, ht⟩
+    · cases hsx : sget s x with
+      | none =>
+        have htx : sget t x = none := by rw [h, hsx]
+        rw [unknownCount_cons_none s x xs hsx, unknownCount_cons_none t x xs htx,
+          entAt_none hsx, entAt_none htx]
+        push_cast; linarith
+      | some v =>
+        have htx : sget t x = some v := by rw [h, hsx]
+        rw [unknownCount_cons_some s x xs v hsx, unknownCount_cons_some t x xs v htx,
+          entAt_some hsx, entAt_some htx]
+        linarith
+    · rw [unknownCount_cons_none s x xs hs, unknownCount_cons_some t x xs c ht,
+        entAt_none hs, entAt_some ht]
+      push_cast; linarith
+
+theorem knownSum_filled_sub {s t : Store} {subs : List Period} {c : Vec} (hf : Filled s subs c t)
+    (l : List Period) (hl : ∀ q, q ∈ l → q ∈ subs) (i : Nat) :
+    knownSum t l i = knownSum s l i + (unknownCount s l : Rat) * ent c i := by
+  rw [← sum_known_or]
+  unfold knownSum
+  congr 1
+  apply List.map_congr_left
+  intro q hq
+  exact entAt_filled hf q (hl q hq) i
+
+theorem divideOn_all_known {k : VKind} {s t : Store} {subs : List Period} {a : Vec} (hwf : WF a.length s)
+    (hu : unknownCount s subs = 0) (h : divideOn k s subs a = .ok t) : t = s := by
+  obtain ⟨_, _, hcnt⟩ := tally_spec s subs a hwf
+  unfold divideOn at h
+  simp only [hcnt, hu, Nat.lt_irrefl, if_false] at h
+  split at h
+  · injection h with h; exact h.symm
+  · cases h
+
+theorem filled_mid {s t : Store} {subs : List Period} {c : Vec} (hf : Filled s subs c t) : Mid s subs c t := by
+  intro q
+  have := hf q
+  cases hs : sget s q with
+  | some v => rw [hs] at this; left; rw [this]
+  | none =>
+    rw [hs] at this
+    by_cases hq : q ∈ subs
+    · right; simp [hq] at this; exact ⟨rfl, hq, this⟩
+    · left; simp [hq] at this; exact this
+
+/-- an input consistent with the final store `s1`, given at an intermediate store, is accepted and
+stays intermediate -/
+theorem mid_step {n : Nat} {s s1 t : Store} {subs l : List Period} {c x : Vec} (hwt : WF n t)
+    (hcl : c.length = n) (hx : x.length = n) (hf : Filled s subs c s1) (hm : Mid s subs c t)
+    (hl : ∀ q, q ∈ l → q ∈ subs) (hcons : ∀ i, i < n → ent x i = knownSum s1 l i) :
+    ∃ t', divideOn .num t l x = .ok t' ∧ Mid s subs c t' ∧ WF n t' := by
+  have hspec : ∀ i, i < x.length → ent x i = knownSum t l i + (unknownCount t l : Rat) * ent c i := by
+    intro i hi
+    rw [hcons i (hx ▸ hi), knownSum_filled_sub hf l hl i, mid_sum hm l i]
+  obtain ⟨t', hd, hft⟩ := divideOn_of_spec (s := t) (subs := l) (a := x) (c := c) (hx ▸ hwt) (by rw [hcl, hx]) hspec
+  refine ⟨t', hd, ?_, filled_wf hft hwt hcl⟩
+  intro q
+  have h1 := hft q
+  cases htq : sget t q with
+  | some v =>
+    rw [htq] at h1
+    simp only at h1
+    rcases hm q with h | ⟨hs, hq, ht⟩
+    · left; rw [h1, ← h, htq]
+    · right; exact ⟨hs, hq, by rw [h1, ← htq]; exact ht⟩
+  | none =>
+    rw [htq] at h1
+    have hsq : sget s q = none := by
+      rcases hm q with h | ⟨_, _, ht⟩
+      · rw [← h, htq]
+      · rw [htq] at ht; cases ht
+    by_cases hq : q ∈ l
+    · right; simp [hq] at h1; exact ⟨hsq, hl q hq, h1⟩
+    · left; simp [hq] at h1; rw [h1, hsq]
+
+/-- the long input given last, at an intermediate store, reproduces `s1` -/
+theorem mid_final {s s1 t : Store} {subs : List Period} {c a : Vec} (hwt : WF a.length t)
+    (hcl : c.length = a.length) (hf : Filled s subs c s1) (hm : Mid s subs c t)
+    (ha : ∀ i, ent a i = knownSum s subs i + (unknownCount s subs : Rat) * ent c i) :
+    ∃ t', divideOn .num t subs a = .ok t' ∧ SameStore t' s1 := by
+  have hspec : ∀ i, i < a.length → ent a i = knownSum t subs i + (unknownCount t subs : Rat) * ent c i := by
+    intro i _
+    rw [ha i, mid_sum hm subs i]
+  obtain ⟨t', hd, hft⟩ := divideOn_of_spec hwt hcl hspec
+  refine ⟨t', hd, ?_⟩
+  intro q
+  rw [hft q, hf q]
+  rcases hm q with h | ⟨hs, hq, ht⟩
+  · rw [h]
+  · rw [hs, ht]; simp [hq]
+
+theorem runDivide_append (k : VKind) (s : Store) (c1 c2 : List (List Period × Vec)) :
+    runDivide k s (c1 ++ c2) =
+      match runDivide k s c1 with
+      | .ok s' => runDivide k s' c2
+      | .error e => .error e := by
+  induction c1 generalizing s with
+  | nil => simp [runDivide]
+  | cons x xs ih =>
+    obtain ⟨l, a⟩ := x
+    simp only [List.cons_append, runDivide]
+    cases divideOn k s l a with
+    | ok s' => exact ih s'
+    | error e => rfl
+
+theorem divideOn_wf {n : Nat} {s t : Store} {subs : List Period} {a : Vec} (hwf : WF n s) (ha : a.length = n)
+    (h : divideOn .num s subs a = .ok t) : WF n t := by
+  subst ha
+  obtain ⟨c, hcl, hf, _, _⟩ := divideOn_ok_spec hwf h
+  exact filled_wf hf hwf hcl
+
+theorem runDivide_wf {n : Nat} {s t : Store} {calls : List (List Period × Vec)} (hwf : WF n s)
+    (hc : ∀ lx, lx ∈ calls → lx.2.length = n) (h : runDivide .num s calls = .ok t) : WF n t := by
+  induction calls generalizing s with
+  | nil => simp [runDivide] at h; rw [← h]; exact hwf
+  | cons x xs ih =>
+    obtain ⟨l, a⟩ := x
+    simp only [runDivide] at h
+    cases hd : divideOn .num s l a with
+    | error e => rw [hd] at h; cases h
+    | ok s' =>
+      rw [hd] at h
+      exact ih (divideOn_wf hwf (hc (l, a) List.mem_cons_self) hd)
+        (fun lx hlx => hc lx (List.mem_cons_of_mem _ hlx)) h
+
+/-- inputs inside a long period that was given first: accepted only if they change nothing, and then
+the same inputs given *before* the long one are accepted too and lead to an intermediate store -/
+theorem runDivide_after_long {n : Nat} {s s1 : Store} {subs : List Period} {c : Vec} (hcl : c.length = n)
+    (hf : Filled s subs c s1) (hw1 : WF n s1) (calls : List (List Period × Vec))
+    (hc : ∀ lx, lx ∈ calls → (∀ q, q ∈ lx.1 → q ∈ subs) ∧ lx.2.length = n)
+    (s2 : Store) (h2 : runDivide .num s1 calls = .ok s2) (t : Store) (hwt : WF n t) (hm : Mid s subs c t) :
+    s2 = s1 ∧ ∃ t', runDivide .num t calls = .ok t' ∧ Mid s subs c t' ∧ WF n t' := by
+  induction calls generalizing t with
+  | nil => simp [runDivide] at h2 ⊢; exact ⟨h2.symm, hm, hwt⟩
+  | cons x xs ih =>
+    obtain ⟨l, a⟩ := x
+    obtain ⟨hl, hal⟩ := hc (l, a) List.mem_cons_self
+    simp only at hl hal
+    simp only [runDivide] at h2 ⊢
+    cases hd : divideOn .num s1 l a with
+    | error e => rw [hd] at h2; cases h2
+    | ok s1' =>
+      rw [hd] at h2
+      have hu : unknownCount s1 l = 0 :=
+        (unknownCount_zero_iff s1 l).mpr (fun q hq => filled_known hf q (hl q hq))
+      have hw1' : WF a.length s1 := hal ▸ hw1
+      have e : s1' = s1 := divideOn_all_known hw1' hu hd
+      subst e
+      obtain ⟨c', _, _, hsum, _⟩ := divideOn_ok_spec hw1' hd
+      have hcons : ∀ i, i < n → ent a i = knownSum s1' l i := by
+        intro i _
+        rw [hsum i, hu]; push_cast; ring
+      obtain ⟨t', hdt, hmt, hwt'⟩ := mid_step hwt hcl hal hf hm hl hcons
+      rw [hdt]
+      exact ih (fun lx hlx => hc lx (List.mem_cons_of_mem _ hlx)) h2 t' hwt' hmt
+
+/-- several dispatch inputs: the first input covering a piece decides its value -/
+theorem sget_runDispatch (s : Store) (calls : List (List Period × Vec)) (q : Period) :
+    sget (runDispatch s calls) q =
+      match sget s q with
+      | some v => some v
+      | none => (calls.find? (fun lx => decide (q ∈ lx.1))).map (·.2) := by
+  induction calls generalizing s with
+  | nil => simp only [runDispatch, List.find?_nil, Option.map_none]; cases sget s q <;> rfl
+  | cons x xs ih =>
+    obtain ⟨l, a⟩ := x
+    simp only [runDispatch]
+    rw [ih, sget_dispatchOn]
+    cases hs : sget s q with
+    | some v => rfl
+    | none =>
+      by_cases hq : q ∈ l
+      · simp [hq]
+      · simp [hq]
+
+/-! ### `Holder.set_input` unfolded -/
+
+theorem setInput_divide_inv {var : VarSpec} {s t : Store} {p : Period} {v : Vec} (hr : var.rule = .divide)
+    (h : setInput var s p v = .ok t) :
+    v.length = var.count ∧ var.defUnit ≠ .eternity ∧
+    ∃ subs, walk var.defUnit p = .ok subs ∧ divideOn var.kind s subs (castVec var.kind v) = .ok t := by
+  unfold setInput at h
+  split at h
+  · cases h
+  · rw [hr] at h
+    simp only [divideByPeriod, toArray] at h
+    by_cases hl : v.length ≠ var.count
+    · rw [if_pos hl] at h; cases h
+    · rw [if_neg hl] at h
+      by_cases he : var.defUnit = .eternity
+      · simp [bind, Except.bind, he] at h
+      · cases hw : walk var.defUnit p with
+        | error e => simp [bind, Except.bind, he, hw] at h
+        | ok subs =>
+          simp [bind, Except.bind, he, hw] at h
+          exact ⟨by simpa using hl, he, subs, rfl, h⟩
+
+theorem setInput_dispatch_inv {var : VarSpec} {s t : Store} {p : Period} {v : Vec} (hr : var.rule = .dispatch)
+    (h : setInput var s p v = .ok t) :
+    v.length = var.count ∧ var.defUnit ≠ .eternity ∧
+    ∃ subs, walk var.defUnit p = .ok subs ∧ t = dispatchOn s subs (castVec var.kind v) := by
+  unfold setInput at h
+  split at h
+  · cases h
+  · rw [hr] at h
+    simp only [dispatchByPeriod, toArray] at h
+    by_cases hl : v.length ≠ var.count
+    · rw [if_pos hl] at h; cases h
+    · rw [if_neg hl] at h
+      by_cases he : var.defUnit = .eternity
+      · simp [bind, Except.bind, he] at h
+      · cases hw : walk var.defUnit p with
+        | error e => simp [bind, Except.bind, he, hw] at h
+        | ok subs =>
+          simp [bind, Except.bind, he, hw] at h
+          exact ⟨by simpa using hl, he, subs, rfl, h.symm⟩
+
+theorem setInput_of_walk {var : VarSpec} {s : Store} {p : Period} {v : Vec} {subs : List Period}
+    (hl : v.length = var.count) (he : var.defUnit ≠ .eternity) (hp : p.unit ≠ .eternity)
+    (hw : walk var.defUnit p = .ok subs) :
+    setInput var s p v =
+      match var.rule with
+      | .dispatch => .ok (dispatchOn s subs (castVec var.kind v))
+      | .divide => divideOn var.kind s subs (castVec var.kind v)
+      | .absent => holderSet var s p v := by
+  unfold setInput
+  rw [if_neg (fun h => hp h.1)]
+  cases var.rule <;>
+    simp [dispatchByPeriod, divideByPeriod, toArray, hl, he, hw, bind, Except.bind]
+
+theorem castVec_length (k : VKind) (v : Vec) : (castVec k v).length = v.length := by
+  cases k <;> simp [castVec]
+
+
+/-! ## 5. the calendar walk -/
+
+theorem dim_ge_28 (y m : Int) : 28 ≤ dim y m := by
+  unfold dim; split <;> (try split) <;> omega
+
+theorem addMonths_valid (c : Date) (hv : c.Valid) (n : Int) (hn : 0 ≤ n) : (addMonths c n).Valid := by
+  obtain ⟨hy, hm1, hm12, hd1, hdd⟩ := hv
+  have h28 := dim_ge_28 ((c.y * 12 + (c.m - 1) + n) / 12) ((c.y * 12 + (c.m - 1) + n) % 12 + 1)
+  refine ⟨?_, ?_, ?_, ?_, ?_⟩ <;> simp only [addMonths] <;> omega
+
+theorem addMonths_add (c : Date) (hd : c.d ≤ 28) (a b : Int) :
+    addMonths (addMonths c a) b = addMonths c (a + b) := by
+  have h1 := dim_ge_28 ((c.y * 12 + (c.m - 1) + a) / 12) ((c.y * 12 + (c.m - 1) + a) % 12 + 1)
+  have h2 := dim_ge_28 ((c.y * 12 + (c.m - 1) + (a + b)) / 12) ((c.y * 12 + (c.m - 1) + (a + b)) % 12 + 1)
+  have e1 : min c.d (dim ((c.y * 12 + (c.m - 1) + a) / 12) ((c.y * 12 + (c.m - 1) + a) % 12 + 1)) = c.d := by omega
+  have e2 : min c.d (dim ((c.y * 12 + (c.m - 1) + (a + b)) / 12) ((c.y * 12 + (c.m - 1) + (a + b)) % 12 + 1)) = c.d := by omega
+  have et : (c.y * 12 + (c.m - 1) + a) / 12 * 12 + ((c.y * 12 + (c.m - 1) + a) % 12 + 1 - 1) + b
+      = c.y * 12 + (c.m - 1) + (a + b) := by omega
+  simp only [addMonths, e1, et, e2]
+
+theorem addMonths_zero (c : Date) (hv : c.Valid) : addMonths c 0 = c := by
+  obtain ⟨hy, hm1, hm12, hd1, hdd⟩ := hv
+  have e1 : (c.y * 12 + (c.m - 1) + 0) / 12 = c.y := by omega
+  have e2 : (c.y * 12 + (c.m - 1) + 0) % 12 + 1 = c.m := by omega
+  simp only [addMonths, e1, e2]
+  have : min c.d (dim c.y c.m) = c.d := by omega
+  rw [this]
+
+theorem addMonths_lt_iff (c : Date) (hd : c.d ≤ 28) (a b : Int) :
+    (addMonths c a).lt (addMonths c b) ↔ a < b := by
+  have h1 := dim_ge_28 ((c.y * 12 + (c.m - 1) + a) / 12) ((c.y * 12 + (c.m - 1) + a) % 12 + 1)
+  have h2 := dim_ge_28 ((c.y * 12 + (c.m - 1) + b) / 12) ((c.y * 12 + (c.m - 1) + b) % 12 + 1)
+  have e1 : min c.d (dim ((c.y * 12 + (c.m - 1) + a) / 12) ((c.y * 12 + (c.m - 1) + a) % 12 + 1)) = c.d := by omega
+  have e2 : min c.d (dim ((c.y * 12 + (c.m - 1) + b) / 12) ((c.y * 12 + (c.m - 1) + b) % 12 + 1)) = c.d := by omega
+  simp only [Date.lt, addMonths, e1, e2]
+  omega
+
+theorem lt_iff_ord_lt (a b : Date) (ha : a.Valid) (hb : b.Valid) : a.lt b ↔ ord a < ord b := by
+  constructor
+  · intro h; exact ord_lt_of_lex a b ha hb h
+  · intro h
+    by_contra hn
+    by_cases e : a = b
+    · subst e; omega
+    · have : b.lt a := by
+        unfold Date.lt at hn ⊢
+        have : ¬ (a.y = b.y ∧ a.m = b.m ∧ a.d = b.d) := by
+          intro ⟨h1, h2, h3⟩; apply e; cases a; cases b; simp_all
+        omega
+      have := ord_lt_of_lex b a hb ha this
+      omega
+
+theorem ord_pos (c : Date) (hv : c.Valid) : 1 ≤ ord c := by
+  have := (ord_bounds c hv).1
+  have : 0 ≤ dby c.y := by have := hv.1; unfold dby; omega
+  omega
+
+theorem ord_addDays (c : Date) (hv : c.Valid) (n : Int) (hn : 0 ≤ n) :
+    ord (addDays c n) = ord c + n ∧ (addDays c n).Valid := by
+  have := ord_pos c hv
+  exact ⟨ord_ofOrd _ (by omega), ofOrd_valid _ (by omega)⟩
+
+theorem year_le_of_ord_le (a b : Date) (ha : a.Valid) (hb : b.Valid) (h : ord a ≤ ord b) : a.y ≤ b.y := by
+  by_contra hn
+  have : b.lt a := Or.inl (by omega)
+  have := ord_lt_of_lex b a hb ha this
+  omega
+
+/-- consecutive pieces covering exactly the ordinals `lo … hi` -/
+def Tiles : List Period → Int → Int → Prop
+  | [], lo, hi => lo = hi + 1
+  | q :: r, lo, hi => q.lo = lo ∧ q.lo ≤ q.hi ∧ Tiles r (q.hi + 1) hi
+
+/-- the walk along a sequence of instants `f 0, f 1, …` that first reaches `after` at index `k` -/
+theorem walkFrom_seq (u : DUnit) (after : Date) (f : Nat → Date) (k : Nat)
+    (H1 : ∀ i, i < k → (f i).lt after)
+    (H2 : ∀ i, i < k → Period.offset ⟨u, f i, 1⟩ (.n 1) none = .ok ⟨u, f (i + 1), 1⟩)
+    (H3 : ¬ (f k).lt after)
+    (H4 : ∀ i, i < k → (⟨u, f i, 1⟩ : Period).hi = ord (f (i + 1)) - 1)
+    (H5 : ∀ i, i < k → ord (f i) < ord (f (i + 1))) :
+    ∀ (d j fuel : Nat), j + d = k → d < fuel →
+      ∃ qs, walkFrom after fuel ⟨u, f j, 1⟩ = .ok qs ∧ qs.length = d ∧
+        (∀ q, q ∈ qs → q.unit = u ∧ q.size = 1) ∧ Tiles qs (ord (f j)) (ord (f k) - 1) ∧
+        qs = (List.range' j d).map (fun i => (⟨u, f i, 1⟩ : Period)) := by
+  intro d
+  induction d with
+  | zero =>
+    intro j fuel hj hf
+    have e : j = k := by omega
+    subst e
+    obtain ⟨fuel', rfl⟩ : ∃ m, fuel = m + 1 := ⟨fuel - 1, by omega⟩
+    refine ⟨[], ?_, rfl, by simp, ?_, by simp⟩
+    · simp only [walkFrom]; rw [if_neg H3]
+    · simp only [Tiles]; omega
+  | succ d ih =>
+    intro j fuel hj hf
+    have hjk : j < k := by omega
+    obtain ⟨fuel', rfl⟩ : ∃ m, fuel = m + 1 := ⟨fuel - 1, by omega⟩
+    obtain ⟨rest, hw, hlen, hu, ht, hexp⟩ := ih (j + 1) fuel' (by omega) (by omega)
+    refine ⟨⟨u, f j, 1⟩ :: rest, ?_, by simp [hlen], ?_, ?_, by rw [hexp]; simp [List.range'_succ]⟩
+    · simp only [walkFrom]
+      rw [if_pos (H1 j hjk)]
+      simp only [bind, Except.bind, H2 j hjk, hw]
+    · intro q hq
+      rcases List.mem_cons.mp hq with rfl | hq
+      · exact ⟨rfl, rfl⟩
+      · exact hu q hq
+    · simp only [Tiles]
+      have h4 := H4 j hjk
+      have h5 := H5 j hjk
+      refine ⟨rfl, ?_, ?_⟩
+      · rw [h4]; simp only [Period.lo]; omega
+      · rw [h4]; simpa using ht
+
+theorem chk_ok (c : Date) (h1 : 1 ≤ c.y) (h2 : c.y ≤ 9999) : chk c = .ok c := by
+  simp [chk, h1, h2]
+
+theorem dateOk_of (c : Date) (hv : c.Valid) (hy : c.y ≤ 9999) : dateOk c = true := by
+  simp [dateOk, hv, hy]
+
+/-- the walk by days from `start` up to a later instant `after` -/
+theorem walk_days (start after : Date) (hv : start.Valid) (ha : after.Valid) (hay : after.y ≤ 9999)
+    (hle : ord start ≤ ord after) (fuel : Nat) (hf : (ord after - ord start).toNat < fuel) :
+    ∃ qs, walkFrom after fuel ⟨.day, start, 1⟩ = .ok qs ∧ qs.length = (ord after - ord start).toNat ∧
+      (∀ q, q ∈ qs → q.unit = .day ∧ q.size = 1) ∧ Tiles qs (ord start) (ord after - 1) ∧
+      qs = (List.range (ord after - ord start).toNat).map (fun (i : Nat) => (⟨.day, addDays start (i : Int), 1⟩ : Period)) := by
+  let f : Nat → Date := fun i => addDays start (i : Int)
+  have hf0 : f 0 = start := by
+    show addDays start ((0 : Nat) : Int) = start
+    simp only [addDays, Int.natCast_zero, Int.add_zero]
+    exact ofOrd_ord start hv
+  have hord : ∀ i : Nat, ord (f i) = ord start + i ∧ (f i).Valid := fun i => ord_addDays start hv i (by omega)
+  have hk : ord (f (ord after - ord start).toNat) = ord after := by rw [(hord _).1]; omega
+  have hyear : ∀ i : Nat, i ≤ (ord after - ord start).toNat → (f i).y ≤ 9999 := by
+    intro i hi
+    have := year_le_of_ord_le (f i) after (hord i).2 ha (by rw [(hord i).1]; omega)
+    omega
+  have hstep : ∀ i : Nat, addDays (f i) 1 = f (i + 1) := by
+    intro i
+    show ofOrd (ord (f i) + 1) = ofOrd (ord start + ((i + 1 : Nat) : Int))
+    rw [(hord i).1]; push_cast; rw [Int.add_assoc]
+  have := walkFrom_seq .day after f (ord after - ord start).toNat
+    (by intro i hi
+        rw [lt_iff_ord_lt _ _ (hord i).2 ha, (hord i).1]; omega)
+    (by intro i hi
+        have h1 : dateOk (f i) = true := dateOk_of _ (hord i).2 (hyear i (by omega))
+        have h2 : chk (f (i + 1)) = .ok (f (i + 1)) :=
+          chk_ok _ (hord (i + 1)).2.1 (hyear (i + 1) (by omega))
+        simp only [Period.offset, Option.getD_none, instOffset, h1, hstep, h2]
+        simp [bind, Except.bind, Except.map])
+    (by rw [lt_iff_ord_lt _ _ (hord _).2 ha, hk]; omega)
+    (by intro i hi
+        simp only [Period.hi]
+        rw [(hord (i + 1)).1, (hord i).1]; push_cast; omega)
+    (by intro i hi
+        rw [(hord (i + 1)).1, (hord i).1]; push_cast; omega)
+    (ord after - ord start).toNat 0 fuel (by omega) hf
+  rw [hf0, hk, ← List.range_eq_range'] at this
+  exact this
+
+/-- the walk by months (`m = 1`) or years (`m = 12`) from a start whose day is at most 28 -/
+theorem walk_months (u : DUnit) (m : Int) (hm : (u = .month ∧ m = 1) ∨ (u = .year ∧ m = 12))
+    (start : Date) (hv : start.Valid) (hd : start.d ≤ 28) (N : Nat)
+    (hay : (addMonths start (m * N)).y ≤ 9999) (fuel : Nat)
+    (hf : (ord (addMonths start (m * N)) - ord start).toNat < fuel) :
+    ∃ qs, walkFrom (addMonths start (m * N)) fuel ⟨u, start, 1⟩ = .ok qs ∧ qs.length = N ∧
+      (∀ q, q ∈ qs → q.unit = u ∧ q.size = 1) ∧
+      Tiles qs (ord start) (ord (addMonths start (m * N)) - 1) ∧
+      qs = (List.range N).map (fun (i : Nat) => (⟨u, addMonths start (m * (i : Int)), 1⟩ : Period)) := by
+  have hm0 : 0 < m := by rcases hm with ⟨_, rfl⟩ | ⟨_, rfl⟩ <;> omega
+  let f : Nat → Date := fun i => addMonths start (m * (i : Int))
+  have hf0 : f 0 = start := by
+    show addMonths start (m * ((0 : Nat) : Int)) = start
+    simp only [Int.natCast_zero, Int.mul_zero]
+    exact addMonths_zero start hv
+  have hval : ∀ i : Nat, (f i).Valid := fun i =>
+    addMonths_valid start hv _ (Int.mul_nonneg (by omega) (by omega))
+  have hlt : ∀ i j : Nat, (f i).lt (f j) ↔ i < j := by
+    intro i j
+    show (addMonths start (m * (i : Int))).lt (addMonths start (m * (j : Int))) ↔ i < j
+    rw [addMonths_lt_iff start hd]
+    constructor
+    · intro h
+      have := Int.lt_of_mul_lt_mul_left h (by omega : (0 : Int) ≤ m)
+      omega
+    · intro h
+      exact Int.mul_lt_mul_of_pos_left (by omega) hm0
+  have hmono : ∀ i : Nat, ord (f i) < ord (f (i + 1)) := fun i =>
+    ord_lt_of_lex _ _ (hval i) (hval (i + 1)) ((hlt i (i + 1)).mpr (by omega))
+  have hyear : ∀ i : Nat, i ≤ N → (f i).y ≤ 9999 := by
+    intro i hi
+    by_cases e : i = N
+    · subst e; exact hay
+    · have h1 : (f i).lt (f N) := (hlt i N).mpr (by omega)
+      have := ord_lt_of_lex _ _ (hval i) (hval N) h1
+      have := year_le_of_ord_le (f i) (f N) (hval i) (hval N) (by omega)
+      have : (f N).y ≤ 9999 := hay
+      omega
+  have hstep : ∀ i : Nat, addMonths (f i) m = f (i + 1) := by
+    intro i
+    show addMonths (addMonths start (m * (i : Int))) m = addMonths start (m * ((i + 1 : Nat) : Int))
+    rw [addMonths_add start hd]
+    congr 1
+    push_cast
+    rw [Int.mul_add, Int.mul_one]
+  have hgrow : ∀ i : Nat, ord start + i ≤ ord (f i) := by
+    intro i
+    induction i with
+    | zero => rw [hf0]; omega
+    | succ i ih => have := hmono i; push_cast; omega
+  have hoff : ∀ i : Nat, i < N → Period.offset ⟨u, f i, 1⟩ (.n 1) none = .ok ⟨u, f (i + 1), 1⟩ := by
+    intro i hi
+    have h1 : dateOk (f i) = true := dateOk_of _ (hval i) (hyear i (by omega))
+    have h2 : chk (f (i + 1)) = .ok (f (i + 1)) := chk_ok _ (hval (i + 1)).1 (hyear (i + 1) (by omega))
+    rcases hm with ⟨rfl, rfl⟩ | ⟨rfl, rfl⟩
+    · simp only [Period.offset, Option.getD_none, instOffset, h1, hstep, h2]
+      simp [bind, Except.bind, Except.map]
+    · have h3 : addMonths (f i) (12 * 1) = f (i + 1) := hstep i
+      simp only [Period.offset, Option.getD_none, instOffset, h1, h3, h2]
+      simp [bind, Except.bind, Except.map]
+  have hhi : ∀ i : Nat, i < N → (⟨u, f i, 1⟩ : Period).hi = ord (f (i + 1)) - 1 := by
+    intro i _
+    rcases hm with ⟨rfl, rfl⟩ | ⟨rfl, rfl⟩
+    · simp only [Period.hi]; rw [hstep i]
+    · have h3 : addMonths (f i) (12 * 1) = f (i + 1) := hstep i
+      simp only [Period.hi]; rw [h3]
+  have := walkFrom_seq u (f N) f N
+    (fun i hi => (hlt i N).mpr hi) hoff (fun h => by have := (hlt N N).mp h; omega) hhi (fun i _ => hmono i)
+    N 0 fuel (by omega) (by
+      have := hgrow N
+      have e : f N = addMonths start (m * N) := rfl
+      rw [e] at this
+      omega)
+  rw [hf0, ← List.range_eq_range'] at this
+  exact this
+
+theorem lt_addMonths (c : Date) (hv : c.Valid) (n : Int) (hn : 1 ≤ n) : c.lt (addMonths c n) := by
+  obtain ⟨hy, hm1, hm12, hd1, hdd⟩ := hv
+  simp only [Date.lt, addMonths]
+  omega
+
+theorem addMonths_year_ge (c : Date) (hv : c.Valid) (n : Int) (hn : 0 ≤ n) : c.y ≤ (addMonths c n).y := by
+  obtain ⟨hy, hm1, hm12, hd1, hdd⟩ := hv
+  simp only [addMonths]
+  omega
+
+/-- first instant after the period (`period.start.offset(period.size, period.unit)`) -/
+def afterDate (p : Period) : Date :=
+  match p.unit with
+  | .year => addMonths p.start (12 * p.size)
+  | .month => addMonths p.start p.size
+  | _ => addDays p.start p.size
+
+/-- the periods for which the walk is claimed to tile: day / month / year family, the period's unit at
+least the definition unit, a valid start that month arithmetic never clips (day ≤ 28 — in particular
+the 1st — whenever the definition unit is the month or the year), years within pendulum's range -/
+def WalkDomain (p : Period) (defU : DUnit) : Prop :=
+  p.start.Valid ∧ 1 ≤ p.size ∧ (afterDate p).y ≤ 9999 ∧
+  ((defU = .day ∧ (p.unit = .day ∨ p.unit = .month ∨ p.unit = .year)) ∨
+   (defU = .month ∧ (p.unit = .month ∨ p.unit = .year) ∧ p.start.d ≤ 28) ∨
+   (defU = .year ∧ p.unit = .year ∧ p.start.d ≤ 28))
+
+instance (p : Period) (defU : DUnit) : Decidable (WalkDomain p defU) := by
+  unfold WalkDomain; infer_instance
+
+/-- number of pieces the statement promises -/
+def pieceCount (p : Period) (defU : DUnit) : Nat :=
+  match defU, p.unit with
+  | .day, _ => (ord (afterDate p) - ord p.start).toNat
+  | .month, .year => (12 * p.size).toNat
+  | _, _ => p.size.toNat
+
+/-- start of the `i`-th piece -/
+def stepDate (defU : DUnit) (c : Date) (i : Nat) : Date :=
+  match defU with
+  | .month => addMonths c (1 * (i : Int))
+  | .year => addMonths c (12 * (i : Int))
+  | _ => addDays c (i : Int)
+
+/-- the pieces, in closed form -/
+def pieces (p : Period) (defU : DUnit) : List Period :=
+  (List.range (pieceCount p defU)).map (fun (i : Nat) => (⟨defU, stepDate defU p.start i, 1⟩ : Period))
+
+theorem walk_tiles (p : Period) (defU : DUnit) (h : WalkDomain p defU) :
+    ∃ qs, walk defU p = .ok qs ∧ qs.length = pieceCount p defU ∧ qs ≠ [] ∧
+      (∀ q, q ∈ qs → q.unit = defU ∧ q.size = 1) ∧ Tiles qs p.lo p.hi ∧ qs = pieces p defU := by
+  obtain ⟨u, start, size⟩ := p
+  obtain ⟨hv, hs, hay, hcase⟩ := h
+  simp only at hv hs hcase
+  have hne : ∀ (qs : List Period) (n : Nat), qs.length = n → 0 < n → qs ≠ [] := by
+    intro qs n h1 h2 e; subst e; simp at h1; omega
+  rcases hcase with ⟨rfl, hu⟩ | ⟨rfl, hu, hd⟩ | ⟨rfl, rfl, hd⟩
+  · -- pieces of one day
+    rcases hu with rfl | rfl | rfl
+    · simp only [afterDate] at hay
+      obtain ⟨ho, hva⟩ := ord_addDays start hv size (by omega)
+      have hsy : start.y ≤ 9999 := by
+        have := year_le_of_ord_le start _ hv hva (by omega); omega
+      obtain ⟨qs, hw, hl, hu, ht, hexp⟩ := walk_days start (addDays start size) hv hva hay (by omega)
+        ((ord (addDays start size) - ord start).toNat + 1) (by omega)
+      refine ⟨qs, ?_, by simpa [pieceCount, afterDate] using hl, hne qs _ hl (by omega), hu, ?_, by rw [hexp]; rfl⟩
+      · simp only [walk, instOffset, dateOk_of start hv hsy, chk_ok _ hva.1 hay]
+        simpa [bind, Except.bind, Except.map] using hw
+      · simpa [Period.lo, Period.hi, ho, show ord start + size - 1 = ord start + size - 1 from rfl] using ht
+    · simp only [afterDate] at hay
+      have hva := addMonths_valid start hv size (by omega)
+      have hlt := ord_lt_of_lex _ _ hv hva (lt_addMonths start hv size hs)
+      have hsy : start.y ≤ 9999 := by have := addMonths_year_ge start hv size (by omega); omega
+      obtain ⟨qs, hw, hl, hu, ht, hexp⟩ := walk_days start (addMonths start size) hv hva hay (by omega)
+        ((ord (addMonths start size) - ord start).toNat + 1) (by omega)
+      refine ⟨qs, ?_, by simpa [pieceCount, afterDate] using hl, hne qs _ hl (by omega), hu, ?_, by rw [hexp]; rfl⟩
+      · simp only [walk, instOffset, dateOk_of start hv hsy, chk_ok _ hva.1 hay]
+        simpa [bind, Except.bind, Except.map] using hw
+      · simpa [Period.lo, Period.hi] using ht
+    · simp only [afterDate] at hay
+      have hva := addMonths_valid start hv (12 * size) (by omega)
+      have hlt := ord_lt_of_lex _ _ hv hva (lt_addMonths start hv (12 * size) (by omega))
+      have hsy : start.y ≤ 9999 := by have := addMonths_year_ge start hv (12 * size) (by omega); omega
+      obtain ⟨qs, hw, hl, hu, ht, hexp⟩ := walk_days start (addMonths start (12 * size)) hv hva hay (by omega)
+        ((ord (addMonths start (12 * size)) - ord start).toNat + 1) (by omega)
+      refine ⟨qs, ?_, by simpa [pieceCount, afterDate] using hl, hne qs _ hl (by omega), hu, ?_, by rw [hexp]; rfl⟩
+      · simp only [walk, instOffset, dateOk_of start hv hsy, chk_ok _ hva.1 hay]
+        simpa [bind, Except.bind, Except.map] using hw
+      · simpa [Period.lo, Period.hi] using ht
+  · -- pieces of one month
+    rcases hu with rfl | rfl
+    · simp only [afterDate] at hay
+      have e : (1 : Int) * ((size.toNat : Nat) : Int) = size := by omega
+      have hva := addMonths_valid start hv size (by omega)
+      have hsy : start.y ≤ 9999 := by have := addMonths_year_ge start hv size (by omega); omega
+      have := walk_months .month 1 (Or.inl ⟨rfl, rfl⟩) start hv hd size.toNat (by rw [e]; exact hay)
+        ((ord (addMonths start size) - ord start).toNat + 1) (by rw [e]; omega)
+      rw [e] at this
+      obtain ⟨qs, hw, hl, hu, ht, hexp⟩ := this
+      refine ⟨qs, ?_, by simpa [pieceCount] using hl, hne qs _ hl (by omega), hu, ?_, by rw [hexp]; rfl⟩
+      · simp only [walk, instOffset, dateOk_of start hv hsy, chk_ok _ hva.1 hay]
+        simpa [bind, Except.bind, Except.map] using hw
+      · simpa [Period.lo, Period.hi] using ht
+    · simp only [afterDate] at hay
+      have e : (1 : Int) * (((12 * size).toNat : Nat) : Int) = 12 * size := by omega
+      have hva := addMonths_valid start hv (12 * size) (by omega)
+      have hsy : start.y ≤ 9999 := by have := addMonths_year_ge start hv (12 * size) (by omega); omega
+      have := walk_months .month 1 (Or.inl ⟨rfl, rfl⟩) start hv hd (12 * size).toNat (by rw [e]; exact hay)
+        ((ord (addMonths start (12 * size)) - ord start).toNat + 1) (by rw [e]; omega)
+      rw [e] at this
+      obtain ⟨qs, hw, hl, hu, ht, hexp⟩ := this
+      refine ⟨qs, ?_, by simpa [pieceCount] using hl, hne qs _ hl (by omega), hu, ?_, by rw [hexp]; rfl⟩
+      · simp only [walk, instOffset, dateOk_of start hv hsy, chk_ok _ hva.1 hay]
+        simpa [bind, Except.bind, Except.map] using hw
+      · simpa [Period.lo, Period.hi] using ht
+  · -- pieces of one year
+    simp only [afterDate] at hay
+    have e : (12 : Int) * ((size.toNat : Nat) : Int) = 12 * size := by omega
+    have hva := addMonths_valid start hv (12 * size) (by omega)
+    have hsy : start.y ≤ 9999 := by have := addMonths_year_ge start hv (12 * size) (by omega); omega
+    have := walk_months .year 12 (Or.inr ⟨rfl, rfl⟩) start hv hd size.toNat (by rw [e]; exact hay)
+      ((ord (addMonths start (12 * size)) - ord start).toNat + 1) (by rw [e]; omega)
+    rw [e] at this
+    obtain ⟨qs, hw, hl, hu, ht, hexp⟩ := this
+    refine ⟨qs, ?_, by simpa [pieceCount] using hl, hne qs _ hl (by omega), hu, ?_, by rw [hexp]; rfl⟩
+    · simp only [walk, instOffset, dateOk_of start hv hsy, chk_ok _ hva.1 hay]
+      simpa [bind, Except.bind, Except.map] using hw
+    · simpa [Period.lo, Period.hi] using ht
+
+/-! ### the walk and `Period.get_subperiods` agree on aligned periods -/
+
+theorem mapM_ok_map {α β : Type} (l : List α) (g : α → Except String β) (h : α → β)
+    (H : ∀ x, x ∈ l → g x = .ok (h x)) : l.mapM g = .ok (l.map h) := by
+  induction l with
+  | nil => rfl
+  | cons x xs ih =>
+    rw [List.mapM_cons, H x List.mem_cons_self, ih (fun y hy => H y (List.mem_cons_of_mem _ hy))]
+    rfl
+
+theorem offsetsFrom_eq (base : Period) (u : DUnit) (n : Int) (h : Nat → Period)
+    (H : ∀ i : Nat, i < n.toNat → base.offset (.n (Int.ofNat i)) (some u) = .ok (h i)) :
+    offsetsFrom base u n = .ok ((List.range n.toNat).map h) := by
+  unfold offsetsFrom
+  exact mapM_ok_map _ _ _ (fun i hi => H i (List.mem_range.mp hi))
+
+theorem addMonths_year_mono (c : Date) (a b : Int) (h : a ≤ b) : (addMonths c a).y ≤ (addMonths c b).y := by
+  simp only [addMonths]; omega
+
+/-- definition-unit alignment: months start on the 1st, years on 1 January -/
+def Aligned (p : Period) (defU : DUnit) : Prop :=
+  (defU = .month → p.start.d = 1) ∧ (defU = .year → p.start.d = 1 ∧ p.start.m = 1)
+
+instance (p : Period) (defU : DUnit) : Decidable (Aligned p defU) := by unfold Aligned; infer_instance
+
+theorem offset_months (u0 : DUnit) (start : Date) (hv : start.Valid) (hsy : start.y ≤ 9999) (i : Nat)
+    (hy : (addMonths start (i : Int)).y ≤ 9999) :
+    Period.offset ⟨u0, start, 1⟩ (.n (Int.ofNat i)) (some .month) = .ok ⟨u0, addMonths start (1 * (i : Int)), 1⟩ := by
+  have hva := addMonths_valid start hv (i : Int) (by omega)
+  simp only [Period.offset, Option.getD_some, instOffset, dateOk_of start hv hsy, Int.ofNat_eq_natCast,
+    chk_ok _ hva.1 hy, Int.one_mul]
+  simp [bind, Except.bind, Except.map]
+
+theorem offset_years (u0 : DUnit) (start : Date) (hv : start.Valid) (hsy : start.y ≤ 9999) (i : Nat)
+    (hy : (addMonths start (12 * (i : Int))).y ≤ 9999) :
+    Period.offset ⟨u0, start, 1⟩ (.n (Int.ofNat i)) (some .year) = .ok ⟨u0, addMonths start (12 * (i : Int)), 1⟩ := by
+  have hva := addMonths_valid start hv (12 * (i : Int)) (by omega)
+  simp only [Period.offset, Option.getD_some, instOffset, dateOk_of start hv hsy, Int.ofNat_eq_natCast,
+    chk_ok _ hva.1 hy]
+  simp [bind, Except.bind, Except.map]
+
+theorem offset_days (u0 : DUnit) (start : Date) (hv : start.Valid) (hsy : start.y ≤ 9999) (i : Nat)
+    (hy : (addDays start (i : Int)).y ≤ 9999) :
+    Period.offset ⟨u0, start, 1⟩ (.n (Int.ofNat i)) (some .day) = .ok ⟨u0, addDays start (i : Int), 1⟩ := by
+  have hva := (ord_addDays start hv (i : Int) (by omega)).2
+  simp only [Period.offset, Option.getD_some, instOffset, dateOk_of start hv hsy, Int.ofNat_eq_natCast,
+    chk_ok _ hva.1 hy]
+  simp [bind, Except.bind, Except.map]
+
+/-- the days of `[start, after)` as `get_subperiods` lists them -/
+theorem offsets_days (start after : Date) (hv : start.Valid) (ha : after.Valid) (hay : after.y ≤ 9999)
+    (hle : ord start ≤ ord after) (n : Int) (hn : n = ord after - ord start) :
+    offsetsFrom ⟨.day, start, 1⟩ .day n =
+      .ok ((List.range (ord after - ord start).toNat).map (fun (i : Nat) => (⟨.day, addDays start (i : Int), 1⟩ : Period))) := by
+  subst hn
+  have hsy : start.y ≤ 9999 := by have := year_le_of_ord_le start after hv ha hle; omega
+  apply offsetsFrom_eq
+  intro i hi
+  apply offset_days .day start hv hsy
+  obtain ⟨ho, hvi⟩ := ord_addDays start hv (i : Int) (by omega)
+  have := year_le_of_ord_le _ after hvi ha (by rw [ho]; omega)
+  omega
+
+theorem instOffset_n_month (c : Date) (hv : c.Valid) (hy : c.y ≤ 9999) (k : Int) (hk : 0 ≤ k)
+    (hay : (addMonths c k).y ≤ 9999) : instOffset c (.n k) .month = .ok (some (addMonths c k)) := by
+  have hva := addMonths_valid c hv k hk
+  simp only [instOffset, dateOk_of c hv hy, chk_ok _ hva.1 hay]
+  simp [Except.map]
+
+theorem instOffset_n_year (c : Date) (hv : c.Valid) (hy : c.y ≤ 9999) (k : Int) (hk : 0 ≤ k)
+    (hay : (addMonths c (12 * k)).y ≤ 9999) : instOffset c (.n k) .year = .ok (some (addMonths c (12 * k))) := by
+  have hva := addMonths_valid c hv (12 * k) (by omega)
+  simp only [instOffset, dateOk_of c hv hy, chk_ok _ hva.1 hay]
+  simp [Except.map]
+
+theorem instOffset_prev_day (c : Date) (hv : c.Valid) (hy : c.y ≤ 9999) (h2 : 2 ≤ ord c) :
+    instOffset c (.n (-1)) .day = .ok (some (ofOrd (ord c - 1))) ∧ ord (ofOrd (ord c - 1)) = ord c - 1 := by
+  have hlast : (ofOrd (ord c - 1)).Valid := ofOrd_valid _ (by omega)
+  have hlo : ord (ofOrd (ord c - 1)) = ord c - 1 := ord_ofOrd _ (by omega)
+  have hly : (ofOrd (ord c - 1)).y ≤ 9999 := by
+    have := year_le_of_ord_le _ _ hlast hv (by rw [hlo]; omega); omega
+  refine ⟨?_, hlo⟩
+  have e : ord c + -1 = ord c - 1 := by omega
+  simp only [instOffset, dateOk_of c hv hy, addDays, e, chk_ok _ hlast.1 hly]
+  simp [Except.map]
+
+theorem spanDays_month (start : Date) (n : Int) (hn : 1 ≤ n) (hv : start.Valid)
+    (hay : (addMonths start n).y ≤ 9999) :
+    Period.spanDays ⟨.month, start, n⟩ = .ok (ord (addMonths start n) - ord start) := by
+  have hva := addMonths_valid start hv n (by omega)
+  have hlt := ord_lt_of_lex _ _ hv hva (lt_addMonths start hv n hn)
+  have hsy : start.y ≤ 9999 := by have := addMonths_year_ge start hv n (by omega); omega
+  have h1 := ord_pos start hv
+  have ha := instOffset_n_month start hv hsy n (by omega) hay
+  obtain ⟨hb, hlo⟩ := instOffset_prev_day _ hva hay (by omega)
+  simp only [Period.spanDays, ha, hb, bind, Except.bind, hlo]
+  congr 1; omega
+
+theorem spanDays_year (start : Date) (n : Int) (hn : 1 ≤ n) (hv : start.Valid)
+    (hay : (addMonths start (12 * n)).y ≤ 9999) :
+    Period.spanDays ⟨.year, start, n⟩ = .ok (ord (addMonths start (12 * n)) - ord start) := by
+  have hva := addMonths_valid start hv (12 * n) (by omega)
+  have hlt := ord_lt_of_lex _ _ hv hva (lt_addMonths start hv (12 * n) (by omega))
+  have hsy : start.y ≤ 9999 := by have := addMonths_year_ge start hv (12 * n) (by omega); omega
+  have h1 := ord_pos start hv
+  have ha := instOffset_n_year start hv hsy n (by omega) hay
+  obtain ⟨hb, hlo⟩ := instOffset_prev_day _ hva hay (by omega)
+  simp only [Period.spanDays, ha, hb, bind, Except.bind, hlo]
+  congr 1; omega
+
+theorem offsets_months (start : Date) (hv : start.Valid) (hsy : start.y ≤ 9999) (n : Int)
+    (hay : (addMonths start n).y ≤ 9999) :
+    offsetsFrom ⟨.month, start, 1⟩ .month n =
+      .ok ((List.range n.toNat).map (fun (i : Nat) => (⟨.month, addMonths start (1 * (i : Int)), 1⟩ : Period))) := by
+  apply offsetsFrom_eq
+  intro i hi
+  apply offset_months .month start hv hsy
+  have := addMonths_year_mono start (i : Int) n (by omega)
+  omega
+
+theorem offsets_years (start : Date) (hv : start.Valid) (hsy : start.y ≤ 9999) (n : Int)
+    (hay : (addMonths start (12 * n)).y ≤ 9999) :
+    offsetsFrom ⟨.year, start, 1⟩ .year n =
+      .ok ((List.range n.toNat).map (fun (i : Nat) => (⟨.year, addMonths start (12 * (i : Int)), 1⟩ : Period))) := by
+  apply offsetsFrom_eq
+  intro i hi
+  apply offset_years .year start hv hsy
+  have := addMonths_year_mono start (12 * (i : Int)) (12 * n) (by omega)
+  omega
+
+/-- on aligned periods `Period.get_subperiods` returns the same pieces as the walk -/
+theorem subperiods_eq_pieces (p : Period) (defU : DUnit) (h : WalkDomain p defU) (hal : Aligned p defU) :
+    p.subperiods defU = .ok (pieces p defU) := by
+  obtain ⟨u, start, size⟩ := p
+  obtain ⟨hv, hs, hay, hcase⟩ := h
+  obtain ⟨halm, haly⟩ := hal
+  simp only at hv hs hcase halm haly
+  rcases hcase with ⟨rfl, hu⟩ | ⟨rfl, hu, hd⟩ | ⟨rfl, rfl, hd⟩
+  · rcases hu with rfl | rfl | rfl
+    · simp only [afterDate] at hay
+      obtain ⟨ho, hva⟩ := ord_addDays start hv size (by omega)
+      have hw : ¬ (unitWeight DUnit.day < unitWeight DUnit.day) := by decide
+      have := offsets_days start (addDays start size) hv hva hay (by omega) size (by omega)
+      simp only [Period.subperiods, if_neg hw, Period.sizeInDays, Period.firstDay, bind, Except.bind, this]
+      rfl
+    · simp only [afterDate] at hay
+      have hva := addMonths_valid start hv size (by omega)
+      have hlt := ord_lt_of_lex _ _ hv hva (lt_addMonths start hv size hs)
+      have hw : ¬ (unitWeight DUnit.month < unitWeight DUnit.day) := by decide
+      have hsp := spanDays_month start size hs hv hay
+      have := offsets_days start (addMonths start size) hv hva hay (by omega) _ rfl
+      simp only [Period.subperiods, if_neg hw, Period.sizeInDays, Period.firstDay, bind, Except.bind, hsp, this]
+      rfl
+    · simp only [afterDate] at hay
+      have hva := addMonths_valid start hv (12 * size) (by omega)
+      have hlt := ord_lt_of_lex _ _ hv hva (lt_addMonths start hv (12 * size) (by omega))
+      have hw : ¬ (unitWeight DUnit.year < unitWeight DUnit.day) := by decide
+      have hsp := spanDays_year start size hs hv hay
+      have := offsets_days start (addMonths start (12 * size)) hv hva hay (by omega) _ rfl
+      simp only [Period.subperiods, if_neg hw, Period.sizeInDays, Period.firstDay, bind, Except.bind, hsp, this]
+      rfl
+  · have hd1 : start.d = 1 := halm rfl
+    have hst : (⟨start.y, start.m, 1⟩ : Date) = start := by cases start; simp_all
+    rcases hu with rfl | rfl
+    · simp only [afterDate] at hay
+      have hsy : start.y ≤ 9999 := by have := addMonths_year_ge start hv size (by omega); omega
+      have hw : ¬ (unitWeight DUnit.month < unitWeight DUnit.month) := by decide
+      have := offsets_months start hv hsy size hay
+      simp only [Period.subperiods, if_neg hw, Period.firstMonth, instOffset, Period.sizeInMonths, hst,
+        bind, Except.bind]
+      simp
+      rw [this]; rfl
+    · simp only [afterDate] at hay
+      have hsy : start.y ≤ 9999 := by have := addMonths_year_ge start hv (12 * size) (by omega); omega
+      have hw : ¬ (unitWeight DUnit.year < unitWeight DUnit.month) := by decide
+      have e : size * 12 = 12 * size := Int.mul_comm _ _
+      have := offsets_months start hv hsy (12 * size) hay
+      simp only [Period.subperiods, if_neg hw, Period.firstMonth, instOffset, Period.sizeInMonths, hst,
+        bind, Except.bind, e]
+      simp
+      rw [this]; rfl
+  · obtain ⟨hd1, hm1⟩ := haly rfl
+    have hst : (⟨start.y, 1, 1⟩ : Date) = start := by cases start; simp_all
+    simp only [afterDate] at hay
+    have hsy : start.y ≤ 9999 := by have := addMonths_year_ge start hv (12 * size) (by omega); omega
+    have hw : ¬ (unitWeight DUnit.year < unitWeight DUnit.year) := by decide
+    have := offsets_years start hv hsy size hay
+    simp only [Period.subperiods, if_neg hw, Period.thisYear, instOffset, hst, bind, Except.bind]
+    simp
+    rw [this]; rfl
+
+/-- **the walk of `set_input` and the pieces summed by `calculate_add` are the same list** -/
+theorem walk_eq_subperiods (p : Period) (defU : DUnit) (h : WalkDomain p defU) (hal : Aligned p defU) :
+    walk defU p = p.subperiods defU := by
+  obtain ⟨qs, hw, _, _, _, _, hq⟩ := walk_tiles p defU h
+  rw [hw, hq, subperiods_eq_pieces p defU h hal]
 
 end OFCore
